@@ -518,6 +518,38 @@ impl VerifApp {
             .insert(task_id.clone(), handle.clone());
         Ok((task_id, Box::pin(engine.verif_emit_future(&handle, kinds))))
     }
+
+    /// Like `create_task_emit_future`, with one emitting future per element of `producers`
+    /// (the stdout and stderr readers of a task emit through the same handle concurrently).
+    pub async fn create_task_emit_futures(
+        &self,
+        payload: serde_json::Value,
+        producers: Vec<Vec<rip_kernel::EventKind>>,
+    ) -> Result<
+        (
+            String,
+            Vec<std::pin::Pin<Box<dyn std::future::Future<Output = ()> + Send + 'static>>>,
+        ),
+        String,
+    > {
+        let payload: TaskSpawnPayload =
+            serde_json::from_value(payload).map_err(|err| err.to_string())?;
+        let engine = self.state.engine.tasks();
+        let handle = engine.create_task(&payload);
+        let task_id = handle.task_id.clone();
+        self.state
+            .tasks
+            .lock()
+            .await
+            .insert(task_id.clone(), handle.clone());
+        let mut futures: Vec<
+            std::pin::Pin<Box<dyn std::future::Future<Output = ()> + Send + 'static>>,
+        > = Vec::new();
+        for kinds in producers {
+            futures.push(Box::pin(engine.verif_emit_future(&handle, kinds)));
+        }
+        Ok((task_id, futures))
+    }
 }
 
 pub(crate) fn build_openapi_router() -> (Router<AppState>, String) {
